@@ -13,6 +13,7 @@ package driver
 // so is a session that stops reading its input.
 
 import (
+	"bytes"
 	"errors"
 	"fmt"
 	"io"
@@ -25,6 +26,7 @@ import (
 	"github.com/google/pprof/internal/verifsim/simexec"
 	"github.com/google/pprof/internal/verifsim/simos"
 	"github.com/google/pprof/internal/verifsim/simrt"
+	"github.com/google/pprof/profile"
 )
 
 func init() {
@@ -243,8 +245,9 @@ func c09Interactive(x *xctx) *violation {
 	// the session may have been started with option flags
 	var sessFlags []string
 	for i, nfl := 0, t.Choose(K, 3); i < nfl; i++ {
-		sessFlags = append(sessFlags, []string{"-sample_index=" + []string{"0", "1", "2", "7", "-1", "samples", "99999999999"}[t.Choose(K, 7)], "-nodecount=" + c09Value(t), "-focus=" + c09Value(t), "-tagfocus=" + c09Value(t), "-unit=" + c09Value(t), "-mean", "-lines", "-divide_by=0", "-trim=false", "-call_tree"}[t.Choose(K, 10)])
+		sessFlags = append(sessFlags, []string{"-sample_index=" + []string{"0", "1", "2", "7", "-1", "samples", "99999999999"}[t.Choose(K, 7)], "-nodecount=" + c09Value(t), "-focus=" + c09Value(t), "-tagfocus=" + c09Value(t), "-unit=" + c09Value(t), "-mean", "-lines", "-divide_by=0", "-trim=false", "-call_tree", "-diff_base=base.pb.gz", "-base=base.pb.gz"}[t.Choose(K, 12)])
 	}
+	simos.PutFile("/sim/cwd/base.pb.gz", c09BaseProfile(t, prof))
 	x.tr("flags %q", sessFlags)
 	o := &plugin.Options{Flagset: newFlags(append(sessFlags, "prof.pb.gz")), UI: ui, Writer: w, Sym: nopSym{}, Obj: obj, HTTPTransport: failTransport{}}
 	var perr error
@@ -348,11 +351,12 @@ func c09CommandLine(x *xctx) *violation {
 		args = append(args, "-output=out")
 	}
 	if t.Bool(K, 15) {
-		args = append(args, "-base=prof.pb.gz")
+		args = append(args, "-base="+[]string{"prof.pb.gz", "base.pb.gz"}[t.Choose(K, 2)])
 	}
-	if t.Bool(K, 10) {
-		args = append(args, "-diff_base="+[]string{"missing.pb.gz", "prof.pb.gz"}[t.Choose(K, 2)])
+	if t.Bool(K, 12) {
+		args = append(args, "-diff_base="+[]string{"missing.pb.gz", "prof.pb.gz", "base.pb.gz"}[t.Choose(K, 3)])
 	}
+	base := c09BaseProfile(t, prof)
 	args = append(args, "prof.pb.gz")
 	if t.Bool(K, 15) {
 		args = append(args, []string{"prof.pb.gz", "missing", "http://host/x"}[t.Choose(K, 3)])
@@ -361,6 +365,7 @@ func c09CommandLine(x *xctx) *violation {
 	freshProcess(true)
 	obj := sw.install()
 	simos.PutFile("/sim/cwd/prof.pb.gz", prof)
+	simos.PutFile("/sim/cwd/base.pb.gz", base)
 	ui := newTaskUI()
 	ui.term = sw.term
 	w := newWriter()
@@ -412,6 +417,10 @@ func c09Web(x *xctx) *violation {
 		if t.Bool(K, 10) {
 			r = path + "?" + []string{"%zz", "a=%", "&&&", "f=%00", ";;"}[t.Choose(K, 5)]
 		}
+		if t.Bool(K, 8) {
+			// the client goes away while the answer is being sent
+			r = fmt.Sprintf("!%d!%s", []int{0, 1, 700, 4096, 30000}[t.Choose(K, 5)], r)
+		}
 		reqs = append(reqs, r)
 		reqs = append(reqs, "/top") // usability probe
 	}
@@ -457,6 +466,32 @@ func c09Web(x *xctx) *violation {
 	x.nontriv["w:"+strings.Join(reqs, " ")] = true
 	x.sample = map[string]interface{}{"mode": "web", "requests": reqs}
 	return nil
+}
+
+// c09BaseProfile derives a base profile from the session's profile: the same
+// stacks with every value column scaled by a seeded factor (0 empties the
+// column, -1 flips it), so that diffs meet zero totals and sign changes.
+func c09BaseProfile(t *simrt.Tape, prof []byte) []byte {
+	p, err := profile.ParseData(prof)
+	if err != nil {
+		return prof
+	}
+	mult := make([]int64, len(p.SampleType))
+	for k := range mult {
+		mult[k] = []int64{0, 1, -1, 2}[t.Choose(simrt.KGen, 4)]
+	}
+	for _, s := range p.Sample {
+		for k := range s.Value {
+			if k < len(mult) {
+				s.Value[k] *= mult[k]
+			}
+		}
+	}
+	var buf bytes.Buffer
+	if err := p.Write(&buf); err != nil {
+		return prof
+	}
+	return buf.Bytes()
 }
 
 var _ = io.EOF
